@@ -397,4 +397,106 @@ theorem changeTree_within (mid mcls : Option Nat) (mfree : Nat) (ccls : Option N
 
 end
 
+/-! ### statistics -/
+section
+variable (c : Cfg)
+
+theorem lowerStatsGo_within (g : Geom) : ∀ cnt t s, Within (cnt * g.treeHuge) (Lower.stats.go g cnt t s) := by
+  intro cnt
+  induction cnt with
+  | zero => intro t s; unfold Lower.stats.go; wauto []
+  | succ cnt ih =>
+    intro t s
+    unfold Lower.stats.go Lower.treeFold
+    rw [Nat.succ_mul]
+    wauto [ih, treeFoldGo_within]
+
+theorem stats_within : Within (statsB c) (stats c) := by
+  unfold stats Lower.stats statsB
+  exact lowerStatsGo_within c.geom c.ntrees 0 {}
+
+theorem treesStatsGo_within : ∀ cnt i s, Within cnt (Trees.stats.go c cnt i s) := by
+  intro cnt
+  induction cnt with
+  | zero => intro i s; unfold Trees.stats.go; wauto []
+  | succ cnt ih => intro i s; unfold Trees.stats.go; wauto [ih]
+
+section
+variable {σ : Type} (f : σ → Nat → LTree → Prog σ) (F : Nat) (hF : ∀ a b t, Within F (f a b t))
+include hF
+
+theorem foldSlotsSlots_within (cls base : Nat) :
+    ∀ cnt j acc, Within (cnt * (F + 1)) (Locals.foldSlots.slots f cls base cnt j acc) := by
+  intro cnt
+  induction cnt with
+  | zero => intro j acc; unfold Locals.foldSlots.slots; wauto []
+  | succ cnt ih =>
+    intro j acc
+    unfold Locals.foldSlots.slots
+    rw [Nat.succ_mul]
+    refine Within.bind 1 (Within.loadK _ _) (fun t => ?_) (by omega)
+    have hrest := fun acc' => ih (j + 1) acc'
+    wauto [hF, hrest]
+
+theorem foldSlotsClasses_within :
+    ∀ cnt i acc, Within (cnt * (c.nslots * (F + 1))) (Locals.foldSlots.classes c f cnt i acc) := by
+  intro cnt
+  induction cnt with
+  | zero => intro i acc; unfold Locals.foldSlots.classes; wauto []
+  | succ cnt ih =>
+    intro i acc
+    unfold Locals.foldSlots.classes
+    rw [Nat.succ_mul]
+    have hrest := fun acc' => ih (i + 1) acc'
+    cases hr : c.slotRange i with
+    | none => dsimp only; wauto [hrest]
+    | some rng =>
+      have hin := slotRange_in c _ rng hr
+      have hle : rng.2 * (F + 1) ≤ c.nslots * (F + 1) := Nat.mul_le_mul_right _ (by omega)
+      have hs := foldSlotsSlots_within f F hF i rng.1 rng.2 0 acc
+      dsimp only
+      wauto [hs, hrest]
+
+theorem foldSlots_within (init : σ) : Within (8 * (c.nslots * (F + 1))) (Locals.foldSlots c f init) := by
+  unfold Locals.foldSlots
+  exact foldSlotsClasses_within c f F hF 8 0 init
+
+end
+
+theorem treeStats_within : Within (treeStatsB c) (treeStats c) := by
+  unfold treeStats treeStatsB Trees.stats
+  refine Within.bind c.ntrees (treesStatsGo_within c _ _ _) (fun s => ?_) (by omega)
+  refine Within.bind (8 * (c.nslots * 1)) (foldSlots_within c _ 0 (fun _ _ _ => Within.pure _ _) s) (fun s => ?_) (by omega)
+  refine (foldSlots_within c _ 1 (fun _ _ _ => ?_) s).mono (by omega)
+  wauto []
+
+theorem isFreeGo_within (g : Geom) (t i : Nat) : ∀ cnt k, Within cnt (Lower.isFree.go g t i cnt k) := by
+  intro cnt
+  induction cnt with
+  | zero => intro k; unfold Lower.isFree.go; wauto []
+  | succ cnt ih => intro k; unfold Lower.isFree.go; wauto [ih]
+
+/-- `is_free` for the orders the source accepts -/
+theorem isFree_within (g : Geom) (frame order : Nat) :
+    Within (g.treeHuge + g.rows + 3) (Lower.isFree g frame order) := by
+  unfold Lower.isFree
+  by_cases hge : order ≥ g.hugeOrder
+  · simp only [hge, if_true]
+    split
+    · exact Within.panic _ _
+    · rename_i hfit
+      exact (isFreeGo_within g _ _ _ 0).mono (by omega)
+  · simp only [hge, if_false]
+    have hz : Within (g.rows + 1) (Bitfield.isZero g (frame / g.hugeFrames) frame order) := by
+      unfold Bitfield.isZero
+      dsimp only
+      split
+      · have h64 : (frame + 2 ^ order) / 64 - frame / 64 ≤ 2 ^ order / 64 + 1 := by omega
+        have := pow_div_le_rows g order (by omega)
+        exact (isZeroGo_within g _ _ _).mono (by omega)
+      · unfold Bitfield.getRow; wauto []
+    wauto [hz]
+
+end
+
 end LLFree
